@@ -318,8 +318,12 @@ def prog_C18(ctx):
     if air:
         ev += air['Mutations']
         ctx.cov['distinct_nontrivial'] = ctx.cov.get('distinct_nontrivial', 0) + len(air.get('MutationHist') or {})
+    # the board itself as an input: a message no reader accepts (boarddiff, monitors only here; the line stream belongs to C16)
+    bd = monitor_only(ctx, 'boarddiff', ['C18'], 'board_layer')
+    if bd:
+        ev += bd.get('HugeSends', 0)
     ctx.cov['evaluations'] = ev
-    ctx.cov['trusted_base'] = ctx.cov.get('trusted_base', []) + ['airgapped machine: no Lean model of the handlers (kyber DKG/VSS, ECIES, BLS); covered by fault injection on the real machine only: every operation a participant receives in a real ceremony is fed to a clone in structure-aware mutated forms (field deletion, type confusion, negative/huge integers, empty/oversized arrays, short identifiers, unknown types, truncated/bit-flipped/random/zero byte strings incl. nested JSON, reversed/huge signing ranges) behind a recover(); a refused operation must leave the database byte-identical',
+    ctx.cov['trusted_base'] = ctx.cov.get('trusted_base', []) + ['airgapped machine: the four key-generation handlers are modelled (Model/AirDkg.lean, tied by the airdkg stream in the C02/C11/C12 checks) but the theorems of this check do not use that model; the machine is covered here by fault injection on the real machine: every operation a participant receives in a real ceremony is fed to a clone in structure-aware mutated forms (field deletion, type confusion, negative/huge integers, empty/oversized arrays, short identifiers, unknown types, truncated/bit-flipped/random/zero byte strings incl. nested JSON, reversed/huge signing ranges) behind a recover(); a refused operation must leave the database byte-identical',
                                 'byte-level coverage-guided fuzzing of the decoders is not part of this check (encoding/json is trusted)']
     ctx.cov['rule'] = ctx.cov.get('rule', '') + '; sszdiff: reversed/negative/huge ranges; airdiff: per operation of a ceremony a sample (quick) or all (thorough) of its mutations'
 
